@@ -191,7 +191,7 @@ ReceiverLabel ==
               ELSE IF E.k = "ack" /\ OutKey(E) = prev /\ out.c = 0 THEN "C16:ExtraCopy"
                    ELSE IF out.c > 0 THEN "C16:MissingCopy"
                    ELSE IF E.k # "ack" THEN "C02:WrongKind"
-                   ELSE IF E.n # out.n THEN "C02:AckNumber"
+                   ELSE IF E.n # out.n THEN (IF why = "ooseq" THEN "C02,C04:ReAckNumber" ELSE "C02:AckNumber")
                    ELSE "C02:AckNotStored"
     [] E.e \in {"snap", "in", "end", "quiet"} ->
          IF out # None
@@ -200,7 +200,7 @@ ReceiverLabel ==
          ELSE IF pc \in {"done", "failed"} THEN "C07:NoExit"
          ELSE IF E.e = "snap"
               THEN IF E.bn # Wire(base) \/ E.wl # len THEN "C02,C08:Scalar"
-                   ELSE "C04,C07:RetryCounter"
+                   ELSE "C04,C07,C13:RetryCounter"    \* decides when (and whether) a silent peer's upload is given up and cleaned
               ELSE "C07:Unexplained"
     [] E.e = "exit" ->
          IF out # None THEN (IF why = "ooseq" THEN "C04:MissingReAck" ELSE "C08,C02:MissingAck")
